@@ -17,6 +17,17 @@ from vf.core import *  # noqa
 MOD = "example.com/salts"
 
 
+def finish_replay(chk):
+    """finish() of a --replay run: the evidence of the last full run stays in place, the replay's goes to <id>.replay.json."""
+    p = EVIDENCE / f"{chk.pid}.json"
+    old = p.read_bytes() if p.exists() else None
+    rc = chk.finish()
+    (EVIDENCE / f"{chk.pid}.replay.json").write_bytes(p.read_bytes())
+    if old is not None:
+        p.write_bytes(old)
+    return rc
+
+
 def parallel(fn, items, workers=3):
     with ThreadPoolExecutor(max_workers=workers) as ex:
         return list(ex.map(fn, items))
@@ -352,7 +363,8 @@ def observe_run(binary: Path, obs: Observation, pkgs=PKGS):
         if f[0] == "AT":
             cur = by_path.get(f[1])
         elif f[0] == "POS" and cur is not None and len(f) >= 3:
-            fname = f[2] if len(f) >= 4 else ""
+            # under -tiny there is no position information at all: the runtime reports "" or "??"
+            fname = f[2] if len(f) >= 4 and f[2].endswith(".go") else ""
             obs.positions.setdefault(cur, {})[f[1]] = fname
         elif f[0] == "OUT":
             out_line = line
